@@ -6,6 +6,7 @@ V = '/verif'
 ids = [l.split()[0] for l in subprocess.check_output([V + '/bin/czcheck', 'list'], text=True).splitlines() if l.strip()]
 props = [json.loads(l) for l in open(V + '/properties.jsonl')]
 notes = json.load(open(V + '/tools/manifest_notes.json'))
+desc = {d['id']: d for d in json.loads(subprocess.check_output([V + '/bin/czcheck', 'list', '-json'], text=True))}
 checks = []
 na = []
 for p in props:
@@ -23,10 +24,10 @@ for p in props:
         "engine": "czcheck",
         "level_claimed": {
             "category": "other",
-            "text": n.get('text', 'Static analysis of the type-checked source (go/types + go/ssa + VTA call graph): decides the structural mechanism clauses listed in the evidence file (guards, pairings, who-may-write sets, tables, sibling agreement) for every path / call site / implementer, not the behaviour itself.'),
-            "design_ref": f"DESIGN.md §3 {pid}",
+            "text": n.get('text', 'Static analysis of the type-checked source (go/types + go/ssa + VTA call graph), for every path / call site / implementer / build configuration; a necessary-condition check, not a proof of the behaviour. ' + desc[pid]['explanation']),
+            "design_ref": f"DESIGN.md §3 {pid}, §7-§9; RULES.md {pid}",
         },
-        "level_note": n.get('note', 'Trusted base: go/packages loading with the real build flags, go/ssa, the VTA call graph (interface invokes made from library code are not followed, see DESIGN.md §2), the frozen rule tables in checker/props. Clauses listed under coverage.not_decided are not claimed.'),
+        "level_note": n.get('note', 'NOT decided (not claimed): ' + '; '.join(desc[pid]['not_decided']) + '. Trusted base: go/packages loading with the real build flags, go/ssa, the VTA call graph (interface invokes made from library code are not followed, DESIGN.md §7.2), the reasoned allowlists and minimum instance counts in checker/props.' + (' Assumptions: ' + '; '.join(desc[pid]['assumptions']) + '.' if desc[pid].get('assumptions') else '')),
         "technique": n.get('technique', 'static analysis: dominator/guard facts, path queries and who-may-write sets over go/ssa'),
     })
 m = {
@@ -43,7 +44,7 @@ m = {
                  "kind_free_text": "repo-specific static analyser over go/packages + go/ssa + VTA call graph (x/tools v0.50.0, go1.26.8)"}],
     "checks": checks,
     "not_applicable": na,
-    "notes": "All checks are static (nothing of /repo is executed). Known findings: /verif/known_findings.json. Quick = default build configuration; thorough = 11 build configurations.",
+    "notes": "All checks are static (nothing of /repo is executed). Known findings: /verif/known_findings.json. Quick = default build configuration; thorough = 11 build configurations plus, as evidence about the checker, the same analysis on scratch copies carrying the known-bad changes of the property (fix: commits reversed, seeded defects under /verif/seeded).",
 }
 json.dump(m, open(V + '/MANIFEST.json', 'w'), indent=1)
 print("checks", len(checks), "not_applicable", len(na))
